@@ -816,6 +816,8 @@ func (env *SpecEnv) call(x SCall) Val {
 		n := 0
 		if lit, ok := x.Args[0].(SInt); ok {
 			n, _ = strconv.Atoi(lit.V)
+		} else {
+			n, _ = strconv.Atoi(arg(0).S)
 		}
 		for rng, it := range a.iters {
 			_ = rng
@@ -852,6 +854,22 @@ func (env *SpecEnv) call(x SCall) Val {
 		ts := specExprString(x.Args[1])
 		t, _ := env.eng.specType(ts, env.pkg)
 		return Val{S: g.rangeFact(t, v.S), Sort: sBool}
+	case "nsent":
+		// nsent("pkg.Type.fieldOrMethod"): number of values sent so far on that channel (engine ghost)
+		lit, ok := x.Args[0].(SStr)
+		if !ok {
+			env.fail("nsent needs a string literal channel key")
+		}
+		key := lit.V
+		if !strings.Contains(key, "/") {
+			if i := strings.Index(key, "."); i >= 0 {
+				if p := env.eng.findPkg(key[:i], env.pkg); p != nil && p.Name() == key[:i] {
+					key = p.Path() + key[i:]
+				}
+			}
+		}
+		H := env.vc.getHeap(env.st, "G:nsent", "(Array Int Int)")
+		return Val{S: sel(H, env.eng.chanID(key)), Sort: sInt}
 	case "top":
 		return Val{S: env.st.top, Sort: sInt}
 	case "mkstruct":
